@@ -152,6 +152,26 @@ ADD5 = {
  "C17": " (R5) the value of a #[diplomat::config] entry is the expression's token text (a quoted value stays a string).",
 }
 
+ADD6 = {
+ "C01": " (R2) the macro leaves a parameter unconverted only if its type already is the C-compatible one (shared C10.R3).",
+ "C02": " (R4) the encoding-dependent string-view spellings occur only in the formatter's encoding table; (R6) decl / impl header paths are built alike (shared C09.R3); diplomat_is_str accepts exactly UTF-8 (shared C16.R3).",
+ "C03": " (R3) write_str's failed-grow edge and the capacity a new Rust-owned writer publishes (shared C12.R1-R3, R10).",
+ "C04": " (R6) a function given the enclosing item's LifetimeEnv names lifetimes through that parameter only; (R1) the JS arena choice for struct fields looks at the option-peeled type.",
+ "C05": " (R4) validate_ty_in_method restates the bounds of every lifetime of a type (shared C04.R4).",
+ "C06": " (R1) RenameAttr::apply returns a pattern-built name on every path with a pattern; (R2) a generator fills its symbol slot before any return other than the disabled-item one.",
+ "C07": " (R1) Dart's string element type is read from wherever gen_slice_element_ty takes it (type-name table or code-unit IntType).",
+ "C08": " (R8) size / alignment given to new DiplomatReceiveBuf are Layout::size() / align(), combined by max and + 1 only; (R7) JS enum contiguity (shared C11).",
+ "C09": " (R3) fmt_decl_header_path / fmt_impl_header_path apply the same operations; (R6) the macro uses both parts of SelfParam.reference where it takes it apart.",
+ "C10": " (R5) option record size formula (shared C08.R2) and the C++ flag tests per return shape (shared C02.R4).",
+ "C11": " (R3) an explicit discriminant never falls back to previous + 1; (R1) C++ FromFFI's per-variant switch is unconditional in the template.",
+ "C12": " (R10) the capacity published by diplomat_buffer_write_create is the capacity it allocated (symbolic terms).",
+ "C13": " (R4) a name formatter that applies attrs.rename applies it on every path (operator names exempt); (R6) attrs_for_inheritance is called with the flag of the field it is called on.",
+ "C14": " (R5) a collection created before an item loop and filled inside it is not read inside it.",
+ "C15": " (R2) an auto-gated special-method marker is stored only after the backend's support record was asked (and the predicate answers every variant with a flag); (R5) the flattened-list conversion of struct fields is requested under WasmABI::Legacy only; panic-site keys are independent of placeholder spelling.",
+ "C16": " (R7) the JS typed-array table has kind and width of the element's wasm32 type (shared C08.R4).",
+ "C17": " (R3) nothing removes entries from the language override table.",
+}
+
 def main():
     props = [json.loads(l) for l in open(os.path.join(V, "properties.jsonl"))]
     checks = []
@@ -167,7 +187,7 @@ def main():
                 "evidence_file": "/verif/evidence/%s.json" % pid,
                 "replay_cmd_template": "./check %s quick  # replay file {path} lists the violated rule instances" % pid,
                 "engine": "dipfacts+rules",
-                "level_claimed": {"category": "other", "text": c["text"] + ADD.get(pid, ("", ""))[0] + ADD3.get(pid, "") + ADD4.get(pid, "") + ADD5.get(pid, ""), "design_ref": "DESIGN.md section 4 " + pid},
+                "level_claimed": {"category": "other", "text": c["text"] + ADD.get(pid, ("", ""))[0] + ADD3.get(pid, "") + ADD4.get(pid, "") + ADD5.get(pid, "") + ADD6.get(pid, ""), "design_ref": "DESIGN.md section 4 " + pid},
                 "level_note": c["note"],
                 "technique": "static analysis: " + c["technique"] + ADD.get(pid, ("", ""))[1],
             })
